@@ -128,6 +128,7 @@ func recursionGuards(r *Run, rule string, frag []*ssa.Function, minCycles int) {
 		}
 		found := ""
 		maxStep := int64(0)
+		lastBound := int64(-1)
 		assign := make([]int, len(comp))
 		var try func(i int) bool
 		check := func() (bool, string) {
@@ -239,6 +240,12 @@ func recursionGuards(r *Run, rule string, frag []*ssa.Function, minCycles int) {
 			if !acyclicWithout(guarded, nil) || !acyclicWithout(nil, inc) {
 				return false, ""
 			}
+			lastBound = -1
+			for f, g := range guard {
+				if guarded[f] && g > lastBound {
+					lastBound = g
+				}
+			}
 			var parts []string
 			for _, f := range comp {
 				s := fmt.Sprintf("%s(%s)", f.Name(), f.Params[d[f]].Name())
@@ -267,6 +274,9 @@ func recursionGuards(r *Run, rule string, frag []*ssa.Function, minCycles int) {
 		}
 		if try(0) {
 			r.OK(rule, construct, comp[0].Pos(), "depth parameter increases round the cycle and is bounded where it is passed on: %s", found)
+			if lim := w.ConstInt("secs2", "MaxListDepth"); true {
+				r.Check(lastBound == lim, rule, construct+": nesting is bounded by exactly secs2.MaxListDepth", comp[0].Pos(), fmt.Sprint(lim), fmt.Sprintf("the recursion is entered with depth ≤ %d, the documented nesting limit is %d: items nested up to the limit must be accepted and deeper ones refused, by encoder-side, decoder and parser alike", lastBound, lim))
+			}
 			r.Check(maxStep == 1, rule, construct+": depth grows by exactly one per nesting level", comp[0].Pos(), "+1", fmt.Sprintf("a call passes depth+%d: the nesting limit that inputs actually meet is lower than the documented one, so items nested up to the limit are refused", maxStep))
 		} else {
 			r.Fail(rule, construct, comp[0].Pos(), "no parameter both increases round this cycle and is bounded by a constant before the recursive call: the recursion depth is controlled by the input (stack exhaustion is a fatal, unrecoverable error)")
